@@ -107,9 +107,10 @@ class FakeSocket:
         tok = self.send_script.pop(0) if self.send_script else None
         data = bytes(data)
         if tok is not None:
-            if tok[0] == "block":
+            if tok[0] in ("block", "block-x"):
                 self.calls.append(("send-block", len(data)))
-                raise self._block(False)
+                # "block-x": on TLS the other want-kind (a send may need to read, a recv may need to write)
+                raise self._block(tok[0] == "block-x")
             if tok[0] == "fail":
                 self.calls.append(("send-fail", tok[1]))
                 raise make_error(tok[1], self.tls)
@@ -132,9 +133,9 @@ class FakeSocket:
         tok = self.recv_script.pop(0) if self.recv_script else None
         limit = bs
         if tok is not None:
-            if tok[0] == "block":
+            if tok[0] in ("block", "block-x"):
                 self.calls.append(("recv-block", 0))
-                raise self._block(True)
+                raise self._block(tok[0] == "block")
             if tok[0] == "fail":
                 self.calls.append(("recv-fail", tok[1]))
                 raise make_error(tok[1], self.tls)
